@@ -285,6 +285,9 @@ func (m *Monitor) Before(g *Gen, line string) {
 		}
 		return
 	}
+	if m.prop == "C05" || m.prop == "C14" || m.prop == "C15" || m.prop == "C07" {
+		return
+	}
 	if !g.env.inited {
 		return
 	}
@@ -297,6 +300,18 @@ func (m *Monitor) Before(g *Gen, line string) {
 }
 
 func (m *Monitor) After(g *Gen, line, out string) {
+	if m.prop == "C05" {
+		w := strings.Fields(line)
+		if len(w) > 0 && (w[0] == "begin" || w[0] == "end" || w[0] == "oend") && out != "ok" {
+			cls := out + ":" + w[0]
+			detail := g.env.lastPanic
+			if out == "panic" {
+				cls = "panic:" + w[0] + ":" + panicKind(g.env.lastPanic)
+			}
+			m.report(g, cls, fmt.Sprintf("%s did not complete: %s %.200s", w[0], out, detail))
+		}
+		return
+	}
 	if m.prop == "C15" {
 		m.checkC15(g, strings.Fields(line), out)
 		return
@@ -2050,4 +2065,17 @@ func diffGenesisSection(what []string, before, after string) []string {
 		return []string{"bank"}
 	}
 	return []string{sec}
+}
+
+func panicKind(msg string) string {
+	for _, k := range []string{"negative coin amount", "Int overflow", "division by zero", "invalid coins", "token not found", "key not found",
+		"nil pointer", "CANNOT CANCEL MINTER BATCH", "attempting to", "slice bounds", "index out of range"} {
+		if strings.Contains(msg, k) {
+			return strings.ReplaceAll(k, " ", "-")
+		}
+	}
+	if len(msg) > 40 {
+		msg = msg[:40]
+	}
+	return strings.ReplaceAll(msg, " ", "-")
 }
